@@ -341,6 +341,14 @@ def _(root):
         sub_all(root, (fn,), "return update_wrapper(wrapper, user_function)", "return _wraps(wrapper, user_function)")
 
 
+@V('dir-lister-globs-with-escaped-root')
+def _(root):
+    """property-preserving: the entry lister uses glob with the archive's own path escaped"""
+    sub_all(root, ('_archives.py',), "from random import random\n", "from random import random\nimport glob\n")
+    sub_all(root, ('_archives.py',), "        return walk(self.__state__['id'],patterns=PREFIX+'*',recurse=False,folders=True,files=False,links=False)\n    def _hasinput(self, root):",
+            "        return [d for d in glob.glob(os.path.join(glob.escape(self.__state__['id']), PREFIX+'*')) if os.path.isdir(d) and not os.path.islink(d)]\n    def _hasinput(self, root):")
+
+
 @V('signature-self-drop-guarded-by-emptiness')
 def _(root):
     """property-preserving: the instance is dropped only when there are names at all (slicing an empty tuple is a no-op), and the inspected callable
